@@ -3,7 +3,7 @@
 cd /verif || exit 1
 export GOFLAGS=-mod=mod GOPROXY=off
 mkdir -p .work/bin evidence out
-for id in $(python3 -c "import json;print(' '.join(json.load(open('tools/checks.json')).keys()))"); do
+for id in $(ls tools/checks.d | sed 's/.json$//'); do
   VERIF_BUILD_ONLY=1 tools/vcheck "$id" || echo "setup: build of $id failed" >&2
 done
 exit 0
